@@ -67,12 +67,19 @@ try:
         for r in ex.map(run, names):
             results.append(r)
             print(*r[:5], r[5][:2], flush=True)
+            if write:          # record as we go: a long sweep may be cut short
+                name, prop, applies, valid, caught, sigs = r
+                mp = os.path.join(HERE, "seeded", name, "meta.json")
+                m = json.load(open(mp))
+                m["revalidated"] = {"repo_commit": sh("git -C /repo rev-parse --short HEAD").stdout.strip(), "verif_commit": sh(f"git -C {HERE} rev-parse --short HEAD").stdout.strip(),
+                                    "applies": applies == "applies", "still_breaks_demo_and_passes_tests": valid, "caught_by_quick_check": caught, "signatures": sigs}
+                json.dump(m, open(mp, "w"), indent=1)
 finally:
     for s in snaps:
         shutil.rmtree(s, ignore_errors=True)
 head = sh("git -C /repo rev-parse --short HEAD").stdout.strip()
 vhead = sh(f"git -C {HERE} rev-parse --short HEAD").stdout.strip()
-if write:
+if False:
     for name, prop, applies, valid, caught, sigs in results:
         p = os.path.join(HERE, "seeded", name, "meta.json")
         m = json.load(open(p))
